@@ -33,12 +33,18 @@ impl<'a> Plugin for TableAccess<'a> {
         let mut found = None;
 
         visit_relations(ast, |relation| {
-            let relation = relation.to_string();
-            let parts = relation.split('.').collect::<Vec<&str>>();
-            let table_name = parts.last().unwrap();
+            // The table is the last part of a possibly qualified name. Like PostgreSQL,
+            // fold an unquoted identifier to lower case and take a quoted one as written.
+            let table_name = match relation.0.last() {
+                Some(ident) => match ident.quote_style {
+                    Some(_) => ident.value.clone(),
+                    None => ident.value.to_lowercase(),
+                },
+                None => return ControlFlow::<()>::Continue(()),
+            };
 
-            if self.tables.contains(&table_name.to_string()) {
-                found = Some(table_name.to_string());
+            if self.tables.contains(&table_name) {
+                found = Some(table_name);
                 ControlFlow::<()>::Break(())
             } else {
                 ControlFlow::<()>::Continue(())
